@@ -65,3 +65,16 @@ Proof. repeat split; reflexivity. Qed.
 From SymfcG Require Import ShapesBasis ShapesPerm ShapesApi.
 Theorem c07_recorded_sources2_in_force : ShapesBasis_as_recorded = true /\ ShapesPerm_as_recorded = true /\ ShapesApi_as_recorded = true.
 Proof. repeat split; reflexivity. Qed.
+
+(** Auxiliary code on this property's path is the recorded source (the remaining accessors of FCCutoff):
+    whole-function match, regenerated on every run. *)
+From SymfcG Require Import ShapesAuxCut.
+Theorem c07_recorded_sources3_in_force : ShapesAuxCut_as_recorded = true.
+Proof. repeat split; reflexivity. Qed.
+
+(** What the modules on this property's path consist of besides the function bodies is the recorded one: every signature with its
+    defaults and keyword-only arguments, decorators, class bases, method lists and module-level statements (imports, constants) --
+    regenerated on every run. *)
+From SymfcG Require Import SkelBasis SkelApi SkelCut SkelPerm.
+Theorem c07_module_skeletons_in_force : SkelBasis_as_recorded = true /\ SkelApi_as_recorded = true /\ SkelCut_as_recorded = true /\ SkelPerm_as_recorded = true.
+Proof. repeat split; reflexivity. Qed.
